@@ -74,6 +74,13 @@ def _cases(tier):
             if op == "in" and isinstance(seq[0], list):
                 continue  # `x in snapshot(<non-literal>)` is outside the documented usage of `in`
             cases.append({"reeval": op, "argseq": seq})
+    # one textual call that exists twice in the bytecode: the body of a `finally:` block (normal path / exception path),
+    # reached through both paths in every order
+    for op in ("<=", ">=", "in", "==", "[k]"):
+        for n in (1, 2, 3):
+            for seq in itertools.product([(f, v) for f in (0, 1) for v in ((0, 1, 2) if op != "==" else (1,))], repeat=n):
+                for shape in ("finally", "finally-return", "with-exit"):
+                    cases.append({"reeval": "finally", "op": op, "seq": [list(x) for x in seq], "shape": shape})
     # the changing value sits inside a container of the argument: behind a literal key, a key written as a name / attribute /
     # f-string, in a tuple, in a constructor call
     for wrap in ("{'k': X}", "{KEY: X}", "{Col.A: X}", "{f'k{1}': X}", "{'a': 0, KEY: X}", "{KEY: 0, 'b': X}", "(0, X)", "[[X]]", "DCW(v=X)", "{'o': {KEY: [X]}}"):
@@ -305,6 +312,8 @@ def _judge_reeval(c):
         return _judge_handles(c)
     if c["reeval"] == "wrapped":
         return _judge_wrapped(c)
+    if c["reeval"] == "finally":
+        return _judge_finally(c)
     if c["reeval"] == "twins":
         return _judge_twins(c)
     op, seq = c["reeval"], c["argseq"]
@@ -321,6 +330,42 @@ def _judge_reeval(c):
         return [("internal-error", r["error"]["type"] + ": " + r["error"]["msg"][:200])], ctx
     if not r["raised"]:
         return [("changed-argument-not-rejected", "argument sequence %r, no exception; file:\n%s" % (seq, ctx["after"][-300:]))], ctx
+    return [None], ctx
+
+
+def _judge_finally(c):
+    from ..drivers.inline import run_inline
+    from ..oracles.locate import snapshot_calls
+
+    op, seq, shape = c["op"], c["seq"], c["shape"]
+    cmp_ = {"<=": "_ok = v <= snapshot()", ">=": "_ok = v >= snapshot()", "in": "_ok = v in snapshot()", "==": "_ok = v == snapshot()", "[k]": "_ok = v <= snapshot()['k']"}[op]
+    if shape == "finally":
+        body = "def site(fail, v):\n    try:\n        if fail:\n            raise KeyError('x')\n    finally:\n        %s\n" % cmp_
+    elif shape == "finally-return":
+        body = "def site(fail, v):\n    try:\n        if fail:\n            raise KeyError('x')\n        return 1\n    finally:\n        %s\n" % cmp_
+    else:
+        body = ("import contextlib\n\n\ndef site(fail, v):\n    with contextlib.suppress(KeyError):\n        try:\n            if fail:\n                raise KeyError('x')\n"
+                "        finally:\n            for _ in (1,):\n                %s\n" % cmp_)
+    calls = "".join("    try:\n        site(%d, %d)\n    except KeyError:\n        pass\n" % (f, v) for f, v in seq)
+    src = "from inline_snapshot import snapshot\n\n\n" + body + "\n\ndef test_0():\n" + calls
+    ctx = {"src": src}
+    r = run_inline({"test_something.py": src}, ["create"])
+    ctx["after"] = r["files"].get("test_something.py", "")
+    if r["error"]:
+        return [("internal-error", r["error"]["type"] + ": " + r["error"]["msg"][:200])], ctx
+    if r["raised"]:
+        return [("test-raised", str(r["raised"])[:200])], ctx
+    vals = [v for _, v in seq]
+    fold = {"<=": max(vals), ">=": min(vals), "==": vals[0], "[k]": {"k": max(vals)}}.get(op)
+    if op == "in":
+        fold = [x for i, x in enumerate(vals) if x not in vals[:i]]
+    try:
+        cs = snapshot_calls(ctx["after"])
+        got = eval(cs[0]["arg_text"] or "None")
+    except Exception as e:  # noqa
+        return [("written-argument-not-evaluable", "%s" % e)], ctx
+    if cs[0]["nargs"] != 1 or got != fold:
+        return [("site-aggregate-differs", "paths %s: written snapshot(%s), fold of the observations %r" % (seq, cs[0]["arg_text"].strip()[:80], fold))], ctx
     return [None], ctx
 
 
